@@ -123,7 +123,7 @@ Proof. unfold new_message_profiled. now intros ->. Qed.
 
 Lemma new_message_ref_restated t e n r :
   slookup (upper n) (t_messages t) = Some r ->
-  (forall st, parse_structure t r = Ok st -> msh_admission t lvl (upper n) st = Ok tt) ->
+  (forall st, parse_structure t r = Ok st -> msh_acceptance t lvl (upper n) st = Ok tt) ->
   new_message_ref lvl t e n r = new_message lvl t e (Some n).
 Proof.
   intros Hl Ha. unfold new_message_ref, new_message. rewrite Hl.
@@ -138,7 +138,7 @@ Lemma parse_message_prof_restated fg p text e n v r :
   slookup n p = Some (PRef r) ->
   (forall t, lib (match v with Some v' => v' | None => dflt end) = Some t ->
      slookup (upper n) (t_messages t) = Some r /\
-     (forall st, parse_structure t r = Ok st -> msh_admission t lvl (upper n) st = Ok tt)) ->
+     (forall st, parse_structure t r = Ok st -> msh_acceptance t lvl (upper n) st = Ok tt)) ->
   pmp fg (Some p) text = pmp fg None text.
 Proof.
   intros Hi Hl Ht. unfold parse_message_prof_gen. rewrite Hi. cbn [bind].
@@ -226,20 +226,20 @@ Variable X A : Type.
 Variable raw : X -> str.
 Variable mkseg : X -> option sref -> result A.
 Variable nm : A -> str.
-Variable admission : str * sref * structure -> list str -> str -> result unit.
+Variable acceptance : str * sref * structure -> list str -> str -> result unit.
 Variable root : sref.
 
 Notation gstate := (gstate A).
 Notation cur_group := (@cur_group A).
-Notation add_child := (add_child A nm admission).
-Notation open_group := (open_group t A nm admission).
-Notation open_groups := (open_groups t A nm admission).
-Notation reopen_group := (reopen_group t A nm admission).
-Notation place := (place X A mkseg nm admission).
-Notation after_found := (after_found t X A raw mkseg nm admission root).
-Notation attempts := (attempts t X A raw mkseg nm admission root).
-Notation step := (step t X A raw mkseg nm admission root).
-Notation run := (run t X A raw mkseg nm admission root).
+Notation add_child := (add_child A nm acceptance).
+Notation open_group := (open_group t A nm acceptance).
+Notation open_groups := (open_groups t A nm acceptance).
+Notation reopen_group := (reopen_group t A nm acceptance).
+Notation place := (place X A mkseg nm acceptance).
+Notation after_found := (after_found t X A raw mkseg nm acceptance root).
+Notation attempts := (attempts t X A raw mkseg nm acceptance root).
+Notation step := (step t X A raw mkseg nm acceptance root).
+Notation run := (run t X A raw mkseg nm acceptance root).
 Notation sspine := (st_spine A).
 Notation sclosed := (st_closed A).
 
@@ -482,7 +482,7 @@ Proof.
         { apply Forall_forall. intros p Hp'. apply (proj1 (Forall_forall _ _) Hgood).
           rewrite <- (firstn_skipn (S j) ex). apply in_or_app. now right. }
         pose proof (open_groups_sound _ s r s2 Hsp (conj Hf Hr) Hch' Hg' Ha1) as Hs2.
-        rewrite El in Hs2. destruct (open_groups_spine t A nm admission _ _ _ Hsp Ha1) as (? & _ & ?). auto.
+        rewrite El in Hs2. destruct (open_groups_spine t A nm acceptance _ _ _ Hsp Ha1) as (? & _ & ?). auto.
       + apply negb_false_iff in Eneq. apply opt_eqb_eq in Eneq.
         destruct Hcase as [[_ E]|(ex' & g & Eex & E)]; [congruence|].
         rewrite E in Eneq. injection Eneq as ->.
@@ -499,7 +499,7 @@ Proof.
              { unfold st_spine, up. cbn [g_path g_forest].
                apply (closed_removelast A (g_path s) (g_forest s) Hc). }
              pose proof (open_group_sound up n r s2 pr' Hup (conj Hf Hr') Hdn Hgn Ha1) as Hs2.
-             destruct (open_group_spine t A nm admission _ _ _ _ Hup Ha1) as (? & _ & ?). rewrite Er. auto.
+             destruct (open_group_spine t A nm acceptance _ _ _ _ Hup Ha1) as (? & _ & ?). rewrite Er. auto.
           -- injection Ha1 as <-. rewrite Er. repeat split; assumption.
         * injection Ha1 as <-. rewrite Er. repeat split; assumption.
     - (* at top level *)
@@ -514,7 +514,7 @@ Proof.
         destruct j as [|j].
         * rewrite Hst in Ha1. change (skipn (S (0 + 0)) (stack_of ex)) with (map some_e ex) in Ha1.
           pose proof (open_groups_sound _ s root s2 Hsp (conj Hf Hr) Hch Hgood Ha1) as Hs2.
-          destruct (open_groups_spine t A nm admission _ _ _ Hsp Ha1) as (? & _ & ?). auto.
+          destruct (open_groups_spine t A nm acceptance _ _ _ Hsp Ha1) as (? & _ & ?). auto.
         * cbn [stack_of nth_error] in Hn. rewrite nth_error_map in Hn.
           destruct (nth_error ex j) as [[g gr]|]; [|discriminate]. cbn in Hn. injection Hn as <-. discriminate.
       + injection Ha1 as <-. destruct Hcase as [[-> _]|(ex' & g & _ & E)]; [|rewrite E in Etn; discriminate].
@@ -582,7 +582,7 @@ Qed.
    reference at top level) and carries the structure of its own reference; every segment parsed
    with a reference is a declared SEG child, under the name it had in the input *)
 Theorem find_groups_carries xs f :
-  find_groups t X A raw mkseg nm admission root xs = Ok f -> Forall (carries root) f.
+  find_groups t X A raw mkseg nm acceptance root xs = Ok f -> Forall (carries root) f.
 Proof.
   unfold find_groups. intros H. inv_bind H. injection H as <-.
   apply (run_sound xs (init_state A root) a); try assumption.
@@ -752,7 +752,7 @@ Theorem grouped_nodes_declared root text f fuel :
   Forall (declared_tree t str seg (take 3) (seg_of_piece t lvl e leaf) root) f.
 Proof.
   intros Hok H. apply named_ok_sound in Hok.
-  pose proof (find_groups_carries t str seg (take 3) (seg_of_piece t lvl e leaf) s_name (group_admission t lvl)
+  pose proof (find_groups_carries t str seg (take 3) (seg_of_piece t lvl e leaf) s_name (group_acceptance t lvl)
                                   root _ Hok (pieces text) f H) as Hs.
   rewrite Forall_forall in *. intros x Hx. eapply carries_declared. now apply Hs.
 Qed.
